@@ -88,11 +88,107 @@ func reqJSON(m map[string]uint64) []byte {
 	return b
 }
 
+// a signature as its three integers (read through GetR/GetS, not through the wire image Bytes())
 func cSign(s *common.Sign) string {
 	if s == nil {
 		return "None"
 	}
-	return "(Some " + cU(s.Bytes()) + ")"
+	r, ss := s.GetR(), s.GetS()
+	img := s.Bytes()
+	return fmt.Sprintf("(Some (%s, %s, %d)%%N)", r.String(), ss.String(), img[len(img)-1])
+}
+
+func leftPad32(z big.Int) []byte {
+	b := z.Bytes()
+	if len(b) >= 32 {
+		return b
+	}
+	return append(make([]byte, 32-len(b)), b...)
+}
+
+// Sign.Bytes() must be r || s || recid with r and s RIGHT-aligned in their 32-byte words, and BytesToSign must invert it
+func signDefect(a *common.Sign) string {
+	if a == nil {
+		return ""
+	}
+	img := a.Bytes()
+	if len(img) != 65 {
+		return fmt.Sprintf("Sign.Bytes() has %d bytes", len(img))
+	}
+	want := append(append(leftPad32(a.GetR()), leftPad32(a.GetS())...), img[64])
+	if !bytes.Equal(img, want) {
+		return "Sign.Bytes() = " + hexs(img) + " is not leftpad32(r) || leftpad32(s) || recid = " + hexs(want)
+	}
+	back := common.BytesToSign(img)
+	if back == nil {
+		return "BytesToSign(Sign.Bytes()) is nil"
+	}
+	br, bs, ar, as := back.GetR(), back.GetS(), a.GetR(), a.GetS()
+	if br.Cmp(&ar) != 0 || bs.Cmp(&as) != 0 || back.GetHexString() != a.GetHexString() {
+		return "BytesToSign(Sign.Bytes()) is a different signature: r " + ar.String() + " -> " + br.String() + ", s " + as.String() + " -> " + bs.String()
+	}
+	return ""
+}
+
+func signDiff(a, b *common.Sign) string {
+	if (a == nil) != (b == nil) {
+		return "signature present on one side only"
+	}
+	if a == nil {
+		return ""
+	}
+	ar, as, br, bs := a.GetR(), a.GetS(), b.GetR(), b.GetS()
+	ai, bi := a.Bytes(), b.Bytes()
+	switch {
+	case ar.Cmp(&br) != 0:
+		return "r " + ar.String() + " -> " + br.String()
+	case as.Cmp(&bs) != 0:
+		return "s " + as.String() + " -> " + bs.String()
+	case ai[len(ai)-1] != bi[len(bi)-1]:
+		return "recid changed"
+	case !bytes.Equal(ai, bi) || a.GetHexString() != b.GetHexString():
+		return "Bytes()/hex image changed"
+	}
+	return ""
+}
+
+// signatures with structured words: leading zero bytes in r, in s, in both; small integers; all-zero; maximal
+func (g *gen) structuredSign() *common.Sign {
+	word := func() []byte {
+		w := make([]byte, 32)
+		switch g.r.Intn(9) {
+		case 0: // one leading zero byte (1/256 of honest signatures per word)
+			copy(w, g.r.Bytes(32))
+			w[0] = 0
+		case 1: // several
+			copy(w, g.r.Bytes(32))
+			for i := 0; i < 1+g.r.Intn(30); i++ {
+				w[i] = 0
+			}
+		case 2:
+			w[31] = 1
+		case 3:
+			w[31] = 255
+		case 4:
+			w[30] = 1 // 256
+		case 5: // zero word
+		case 6:
+			for i := range w {
+				w[i] = 0xff
+			}
+		default:
+			copy(w, g.r.Bytes(32))
+			if w[0] == 0 {
+				w[0] = 1
+			}
+		}
+		return w
+	}
+	b := append(append(word(), word()...), byte(g.r.Intn(4)))
+	if g.r.Intn(6) == 0 {
+		b[64] = byte(27 + g.r.Intn(2))
+	}
+	return common.BytesToSign(b)
 }
 
 func cTx(t *types.Transaction) string {
@@ -365,10 +461,15 @@ func (g *gen) sign() []byte {
 		return g.r.Bytes(64 + g.r.Intn(3))
 	}
 	b := g.r.Bytes(65)
-	if g.r.Intn(3) == 0 {
+	switch g.r.Intn(4) {
+	case 0:
 		for i := 0; i < 4; i++ {
 			b[i], b[32+i] = 0, 0
 		}
+	case 1: // words with leading zeros / small integers / extremes, written here (not through Sign.Bytes())
+		sg := g.structuredSign()
+		r, s2 := sg.GetR(), sg.GetS()
+		b = append(append(leftPad32(r), leftPad32(s2)...), b[64])
 	}
 	return b
 }
@@ -657,14 +758,10 @@ func (g *gen) goBytes() []byte {
 func (g *gen) tx() *types.Transaction {
 	t := &types.Transaction{Source: g.str(), Target: g.str(), Type: g.i32(), Time: g.str(), Data: g.str(), ExtraData: g.str(),
 		ExtraDataType: g.i32(), SubTransactions: g.userData(), SubHash: g.hash(), Hash: g.hash(), Nonce: g.u64(), RequestId: g.u64(), ChainId: g.str()}
-	if g.r.Intn(3) > 0 {
+	if g.r.Intn(4) > 0 {
 		t.Sign = common.BytesToSign(g.r.Bytes(65))
-		if g.r.Intn(4) == 0 {
-			b := g.r.Bytes(65)
-			for i := 0; i < 5; i++ {
-				b[i], b[32+i] = 0, 0
-			}
-			t.Sign = common.BytesToSign(b)
+		if g.r.Intn(3) > 0 {
+			t.Sign = g.structuredSign()
 		}
 	}
 	if g.r.Intn(4) == 0 {
@@ -1474,7 +1571,9 @@ func (x *H) fixedTx(v *types.Transaction, origin string, src []byte) {
 	}
 	nv := normTx(*v)
 	x.res.Count("fixed:tx", "f"+cTx(v), true)
-	if cTx(&nv) != cTx(&v1) || v.GenHash() != v1.GenHash() {
+	if d := signDiff(v.Sign, v1.Sign); d != "" {
+		x.res.Violate("C09/fixed-point:tx:sign", "the signature of a parsed transaction changes under serialise/parse: "+d, map[string]interface{}{"origin": origin, "src": hexs(src), "before": cTx(&nv), "after": cTx(&v1)})
+	} else if cTx(&nv) != cTx(&v1) || v.GenHash() != v1.GenHash() {
 		x.res.Violate("C09/fixed-point:tx", "a parsed transaction changes under serialise/parse", map[string]interface{}{"origin": origin, "src": hexs(src), "before": cTx(&nv), "after": cTx(&v1)})
 	}
 }
@@ -1788,6 +1887,10 @@ func (x *H) rtTx(v *types.Transaction, model bool) []byte {
 	switch {
 	case pan || err != nil:
 		x.res.Violate("C09/roundtrip:tx:parse", fmt.Sprintf("own encoding does not parse (%v %s %v)", pan, msg, err), map[string]interface{}{"value": cTx(v), "bytes": hexs(b)})
+	case signDefect(v.Sign) != "":
+		x.res.Violate("C09/roundtrip:tx:sign", "the wire image of the transaction's signature is wrong: "+signDefect(v.Sign), map[string]interface{}{"transaction": cTx(&nv), "bytes": hexs(b)})
+	case signDiff(v.Sign, v1.Sign) != "":
+		x.res.Violate("C09/roundtrip:tx:sign", "the signature of a transaction changes across Marshal/UnMarshal: "+signDiff(v.Sign, v1.Sign), map[string]interface{}{"before": cTx(&nv), "after": cTx(&v1), "bytes": hexs(b)})
 	case cTx(&nv) != cTx(&v1):
 		x.res.Violate("C09/roundtrip:tx:content", "transaction content changes across Marshal/UnMarshal", map[string]interface{}{"before": cTx(&nv), "after": cTx(&v1), "bytes": hexs(b)})
 	case v.GenHash() != v1.GenHash():
